@@ -183,7 +183,9 @@ def _child(job, conn):
         pass
     try:
         r = _run_job(job)
-    except BaseException as e:   # MemoryError outside the job's own handlers
+    except MemoryError as e:
+        r = _budget_result(job, "memory cap of %d GB reached" % JOB_MEM_GB[0])
+    except BaseException as e:
         r = Result()
         r.errors.append("job %s: %r" % (getattr(job[0], "__name__", "?"), e))
     try:
@@ -193,6 +195,17 @@ def _child(job, conn):
         r2.errors.append("job %s: result could not be sent: %r" % (getattr(job[0], "__name__", "?"), e))
         conn.send(r2)
     conn.close()
+
+
+def _budget_result(job, why):
+    """a job that ran out of its time or memory budget decided nothing: that is recorded as an undecided obligation (listed in the evidence,
+    never a pass for what it would have covered) -- not as an internal error"""
+    r = Result()
+    name = "%s%r" % (getattr(job[0], "__name__", "?"), tuple(str(x)[:30] for x in job[1][:4]))
+    r.add_raw("job/" + name, "undecided", "job exceeded its budget (%s): nothing it would have decided is claimed" % why)
+    r.notes.append("BUDGET: %s: %s" % (name, why))
+    r.paths, r.steps = 1, 1
+    return r
 
 
 def run_jobs(jobs, nproc=None, timeout=2400):
@@ -232,8 +245,7 @@ def run_jobs(jobs, nproc=None, timeout=2400):
                 done.append(i)
             elif time.time() - t0 > timeout:
                 pr.kill()
-                out[i] = Result()
-                out[i].errors.append("job %s%r failed: timeout after %ds" % (name, tuple(str(x)[:30] for x in jobs[i][1]), timeout))
+                out[i] = _budget_result(jobs[i], "timeout after %ds" % timeout)
                 done.append(i)
         for i in done:
             pr, a, _ = running.pop(i)
@@ -260,6 +272,8 @@ def _run_job(job):
         r.paths, r.steps = 1, 1
         r.violations.append({"key": "native-crash/%s" % getattr(fn, "__name__", "?"), "what": "the natively built wrapper crashed: %s" % str(e)[:400],
                              "replay": {"kind": "memory", "key": "native-crash", "what": str(e)[:400]}})
+    except MemoryError:
+        r = _budget_result(job, "memory cap of %d GB reached" % JOB_MEM_GB[0])
     except UninitOutput as e:
         r = Result()
         r.add_raw("outputs-initialised", "violated", str(e)[:300])
@@ -299,6 +313,8 @@ class Run:
         vio = [v for r in self.results for v in r.violations]
         errors = [e for r in self.results for e in r.errors]
         nviol_obl = sum(1 for o in obls if o[1] == "violated")
+        if disc == 0 and not vio:
+            errors.append("vacuous run: no obligation was discharged (every job out of budget or failed)")
         if nviol_obl and not vio:
             errors.append("%d obligations marked violated without a violation record: %s" % (nviol_obl, [o[0] for o in obls if o[1] == "violated"][:5]))
         paths = sum(r.paths for r in self.results)
